@@ -233,6 +233,7 @@ type M struct {
 	ctxType, errType types.Type
 
 	Stats    struct{ Firings, Cfgs, MaxLive int }
+	Single   bool            // the previous round saw one thread only: lock operations are invisible
 	MaxTerms int             // cap on the number of terms (0 = none)
 	funcs    map[string]bool // functions entered by the interpreter in the final round
 	stubs    map[string]bool // environment models exercised
@@ -311,10 +312,13 @@ func (m *M) Ctx() *smt.Ctx { return m.c }
 
 // alloc returns the address for allocation key, reserving leaves for t.
 func (m *M) alloc(key string, t types.Type) Addr {
+	lt := leafTypes(t)
 	if a, ok := m.allocTab[key]; ok {
+		if m.blocks[a] != len(lt) {
+			panic(unsupported(fmt.Sprintf("allocation %q re-executed with a different size (%d vs %d leaves)", key, m.blocks[a], len(lt))))
+		}
 		return a
 	}
-	lt := leafTypes(t)
 	a := m.nextAddr
 	for i, l := range lt {
 		m.leafT[a+Addr(i)] = l
@@ -453,6 +457,21 @@ func (m *M) step(k int) (err error) {
 	}
 	nth := len(m.live)
 	nlive := 0
+	// if only one thread has anything left to do, the scheduler has no choice: its firing does
+	// not depend on c_k (keeps sequential harnesses and sequential prefixes free of schedule terms)
+	sole := -1
+	for t := 0; t < nth; t++ {
+		for _, cfg := range m.live[t] {
+			if cfg.Status == stDone || cfg.Status == stPanic || cfg.Status == stParked || (cfg.Status == stStart && cfg.Gate == -1) {
+				continue
+			}
+			if sole == -1 || sole == t {
+				sole = t
+			} else {
+				sole = -2
+			}
+		}
+	}
 	for t := 0; t < nth; t++ {
 		keys := make([]string, 0, len(m.live[t]))
 		for key := range m.live[t] {
@@ -473,6 +492,9 @@ func (m *M) step(k int) (err error) {
 			}
 			en := m.enabled(cfg)
 			sel := m.c.Eq(ck, m.c.BV(int64(t), 8))
+			if sole == t {
+				sel = m.c.T
+			}
 			fire := m.c.And(cfg.G, sel, en)
 			addNext(cfg, m.c.And(cfg.G, m.c.Not(m.c.And(sel, en))))
 			enabledAny = append(enabledAny, m.c.And(cfg.G, en))
@@ -910,6 +932,10 @@ func (m *M) load(p *path, s *VSet, t types.Type, instr ssa.Instruction, plain bo
 			}
 			pos := 0
 			v := m.unflatten(t, leaves, &pos)
+			if !m.compatible(v, res) {
+				base := m.blockOf[a]
+				panic(unsupported(fmt.Sprintf("load of %s through a pointer set with incompatible cells: cell %d (+%d in block %q, leaf type %s) at %s", t, a, int(a-base), m.blockKey[base], m.leafT[a], m.pos(instrOrNil(instr)))))
+			}
 			res = m.merge(al.G, v, res)
 		default:
 			panic(unsupported(fmt.Sprintf("load through %T", al.C)))
@@ -953,6 +979,36 @@ func (m *M) violate(p *path, kind, id string, instr ssa.Instruction, g *smt.Term
 }
 
 type unsupported string
+
+func instrOrNil(i ssa.Instruction) ssa.Instruction { return i }
+
+// compatible: can a and b be merged (same shape)?
+func (m *M) compatible(a, b Value) bool {
+	if a == nil || b == nil {
+		return true
+	}
+	switch a.(type) {
+	case VInt:
+		y, ok := b.(VInt)
+		return ok && y.T.S == a.(VInt).T.S
+	case VBool:
+		_, ok := b.(VBool)
+		return ok
+	case *VSet:
+		_, ok := b.(*VSet)
+		return ok
+	case *VIface:
+		_, ok := b.(*VIface)
+		return ok
+	case VSlice:
+		_, ok := b.(VSlice)
+		return ok
+	case VAgg:
+		y, ok := b.(VAgg)
+		return ok && len(y) == len(a.(VAgg))
+	}
+	return true
+}
 
 func (m *M) Reset()             { m.reset() }
 func (m *M) NumThreads() int    { return len(m.threads) }
@@ -1025,7 +1081,15 @@ func sameValue(a, b Value) bool {
 		return ok && x == y
 	case VStr:
 		y, ok := b.(VStr)
-		return ok && x.S == y.S
+		if !ok || x.Len != y.Len || len(x.B) != len(y.B) {
+			return false
+		}
+		for i := range x.B {
+			if x.B[i] != y.B[i] {
+				return false
+			}
+		}
+		return true
 	}
 	return false
 }
